@@ -2456,7 +2456,10 @@ func (a *Association) handleData(chunkPayload *chunkPayloadData) []*packet {
 	expectedTSN := a.peerLastTSN() + 1
 	gapDetected := sna32GT(chunkPayload.tsn, expectedTSN)
 
-	sackNow := chunkPayload.immediateSack || gapDetected
+	// RFC 4960 Sec 6.2: a DATA chunk that carries nothing new (a duplicate, or a
+	// TSN we cannot accept) must be acknowledged without delay, the previous
+	// SACK may have been lost.
+	sackNow := chunkPayload.immediateSack || gapDetected || !canPush
 	if state == shutdownSent {
 		sackNow = true
 	}
